@@ -295,7 +295,7 @@ def partitions(tier, seed):
                                'symbolic method with size k2; k, k2 any int >= -1' % (content, clen, len(pre_b))))
     # two parts: how much of the first part is read must not matter
     two = [((0, 0, 0, 2), (1, 1, 1, 1), b'b'), ((2, 2, 2, 1), (0, 0, 0, 2), b'bb')]
-    for si, (p0, p1, bd) in enumerate(two):
+    for si, (p0, p1, bd) in enumerate([] if q else two):   # ~50 s per path: thorough tier only (the alignment sweep covers 2-part forms in quick)
         for asgi in ((si % 2,) if q else (0, 1)):
             sample = encode([p0[:3] + (b'x' * p0[3],), p1[:3] + (b'y' * p1[3],)], bd)
             blen = len(sample)
